@@ -286,10 +286,11 @@ class Simulator(BaseSimObj):
             ] = schedule_matrix
         else:
             # We've reached the end of pilot_signals, so double pilot_signal array width
+            last_timestamp = self.event_queue.get_last_timestamp()
             self.pilot_signals = _increase_width(
                 self.pilot_signals,
                 max(
-                    self.event_queue.get_last_timestamp() + 1,
+                    last_timestamp + 1 if last_timestamp is not None else 0,
                     self._iteration + schedule_length,
                 ),
             )
